@@ -13,6 +13,7 @@
 #include <pthread.h>
 #include <sched.h>
 #include <stdatomic.h>
+#include <sys/mman.h>
 #include <time.h>
 
 #define PACK_STATIC
@@ -28,13 +29,29 @@
 #include "varintBitstream.h"
 
 #define NIN 6           /* shared input arrays */
-#define NEXTRA_OPS 9
+#define NEXTRA_OPS 11
 #define NOPS (NCODECS + NEXTRA_OPS)
 #define MAXT 16
 #define INLEN 700
 #define BIGN 10300 /* one shared input above 10000 elements: the sampled-uniqueness path of the adaptive analysis */
 
 #define HUGEN 70001 /* shared inputs of more than 65536 elements (input slot 1 of every codec that takes them) */
+/* every shared input lives in one arena that is made read-only (mprotect) before the first thread starts: the inputs
+ * are `const` for the library, so a store into them - even one that is undone afterwards - faults */
+#define ARENA_BYTES (64u << 20)
+static uint8_t *ARENA;
+static size_t ARENA_USED;
+static void *ro_alloc(size_t bytes, size_t misalign) {
+    size_t at = (ARENA_USED + 63) & ~(size_t)63;
+    at += misalign;
+    if (at + bytes > ARENA_BYTES) {
+        fprintf(stderr, "shared-input arena too small\n");
+        exit(2);
+    }
+    ARENA_USED = at + bytes;
+    return ARENA + at;
+}
+static uint32_t *U32[NIN][2]; /* shared 32-bit inputs (any / non-decreasing), start address = 0, 4, 8, 12 mod 16 by input slot */
 static uint64_t *BIG;
 static uint64_t *HUGE_IN[3];
 static __thread uint64_t *PRIV; /* per-thread domain-shaping copy */
@@ -73,6 +90,10 @@ static const uint64_t *input_for(const codec_t *c, int in, size_t *n) {
     return IN[in][0];
 }
 
+static int cmp_u32_thr(const void *a, const void *b) {
+    uint32_t x = *(const uint32_t *)a, y = *(const uint32_t *)b;
+    return (x > y) - (x < y);
+}
 /* run one op on shared input `in` with private scratch; returns a digest of everything produced */
 static uint64_t run_op(int op, int in, uint8_t *scratch, uint64_t *outbuf) {
     digest_t d;
@@ -173,6 +194,21 @@ static uint64_t run_op(int op, int in, uint8_t *scratch, uint64_t *outbuf) {
         digest_u64(&d, st.minValue ^ st.maxValue ^ st.avgDelta);
         digest_u64(&d, (uint64_t)varintAdaptiveSelectEncoding(&st));
         digest_u64(&d, varintAdaptiveCountUnique(BIG, BIGN - 7 * (size_t)in));
+        break;
+    }
+    case 9:
+    case 10: { /* 32-bit block packers reading a shared 32-bit input directly (start address 0/4/8/12 mod 16) */
+        bool delta = op - (int)NCODECS == 10;
+        const uint32_t *u = U32[in][delta ? 1 : 0];
+        varintBP128Meta bm;
+        memset(&bm, 0, sizeof bm);
+        size_t ret = delta ? varintBP128DeltaEncode32(scratch, u, n, &bm) : varintBP128Encode32(scratch, u, n, &bm);
+        digest_u64(&d, ret);
+        digest_bytes(&d, scratch, ret);
+        uint32_t *o32 = (uint32_t *)outbuf;
+        size_t dn = delta ? varintBP128DeltaDecode32(scratch, o32, n) : varintBP128Decode32(scratch, o32, n);
+        digest_u64(&d, dn);
+        digest_bytes(&d, o32, n * 4);
         break;
     }
     case 5: { /* shared prebuilt dictionary through const entry points */
@@ -313,31 +349,48 @@ int main(int argc, char **argv) {
     ROUNDS = g_param[1] ? (int)g_param[1] : 10;
     rng_t r;
     rng_seed(&r, mix3(g_seed, g_shard, 0xC17));
+    ARENA = mmap(NULL, ARENA_BYTES, PROT_READ | PROT_WRITE, MAP_PRIVATE | MAP_ANONYMOUS, -1, 0);
+    if (ARENA == MAP_FAILED) {
+        fprintf(stderr, "mmap failed\n");
+        return 2;
+    }
     static const int models[NIN] = {AM_MIXTURE, AM_CLUSTER_OUT, AM_FEWUNIQ, AM_RUNS, AM_ASC_SMALL, AM_BIGBASE};
     for (int i = 0; i < NIN; i++) {
         INN[i] = 64 + rng_below(&r, INLEN - 64);
-        for (int f = 0; f < 3; f++) IN[i][f] = malloc(INLEN * 8);
+        for (int f = 0; f < 3; f++) IN[i][f] = ro_alloc(INLEN * 8, (size_t)((i + f) & 1) * 8);
         gen_array_model(&r, models[i], IN[i][0], INLEN, 64);
         memcpy(IN[i][1], IN[i][0], INLEN * 8);
         qsort(IN[i][1], INN[i], 8, cmp_u64);
         for (size_t k = 0; k < INLEN; k++) IN[i][2][k] = IN[i][0][k] ? IN[i][0][k] : 1;
-        DIN[i] = malloc(INLEN * 8);
+        DIN[i] = ro_alloc(INLEN * 8, (size_t)(i & 1) * 8);
         for (size_t k = 0; k < INLEN; k++) DIN[i][k] = ldexp(1.0 + (double)(IN[i][0][k] & 0xfffff) / 1048576.0, (int)(IN[i][0][k] >> 59) - 16);
         SHARED_DICT[i] = varintDictCreate();
         varintDictBuild(SHARED_DICT[i], IN[i][0], INN[i]);
     }
-    for (int f = 0; f < 3; f++) HUGE_IN[f] = malloc(HUGEN * 8);
+    for (int i = 0; i < NIN; i++) {
+        for (int f = 0; f < 2; f++) {
+            U32[i][f] = ro_alloc(INLEN * 4, (size_t)(i % 4) * 4);
+            for (size_t k = 0; k < INLEN; k++) U32[i][f][k] = (uint32_t)IN[i][f][k];
+        }
+        qsort(U32[i][1], INN[i], 4, cmp_u32_thr);
+    }
+    for (int f = 0; f < 3; f++) HUGE_IN[f] = ro_alloc(HUGEN * 8, (size_t)(f & 1) * 8);
     gen_array_model(&r, AM_CLUSTER_OUT, HUGE_IN[0], HUGEN, 64);
     for (size_t k = 0; k < HUGEN; k++) if (k % 7 == 3) HUGE_IN[0][k] = HUGE_IN[0][k / 2]; /* repeated values: dictionaries stay smaller than the input */
     memcpy(HUGE_IN[1], HUGE_IN[0], HUGEN * 8);
     qsort(HUGE_IN[1], HUGEN, 8, cmp_u64);
     for (size_t k = 0; k < HUGEN; k++) HUGE_IN[2][k] = HUGE_IN[0][k] ? HUGE_IN[0][k] : 1;
-    BIG = malloc(BIGN * 8);
+    BIG = ro_alloc(BIGN * 8, 8);
     for (size_t k = 0; k < BIGN; k++) BIG[k] = (rng_next(&r) % 5000) * 977 + 5; /* many distinct values: the sampled estimate depends on which elements are sampled */
     for (int op = 0; op < (int)NOPS; op++) {
-        static const char *const en[NEXTRA_OPS] = {"scalar.tagged+external", "scalar.chained", "scalar.split-macros", "scalar.inplace-add", "float", "dict.shared-const", "packed.private", "bitstream.private", "adaptive.analysis-over-10000"};
+        static const char *const en[NEXTRA_OPS] = {"scalar.tagged+external", "scalar.chained", "scalar.split-macros", "scalar.inplace-add", "float", "dict.shared-const", "packed.private", "bitstream.private", "adaptive.analysis-over-10000", "bp128.32.shared-input", "bp128.delta32.shared-input"};
         OPNAME[op] = op < (int)NCODECS ? CODECS[op].name : en[op - (int)NCODECS];
     }
+    if (mprotect(ARENA, ARENA_BYTES, PROT_READ) != 0) {
+        fprintf(stderr, "mprotect failed\n");
+        return 2;
+    }
+    printf("STAT c17_shared_input_bytes_mapped_read_only %zu\n", ARENA_USED);
     COLD = !strcmp(g_mode, "c17cold");
     COLD_ROT = (int)((g_shard * 7 + g_seed) % NOPS);
     /* sequential reference results, before any thread exists (cold mode: afterwards) */
